@@ -326,3 +326,21 @@ impl io::Read for SimReader<'_> {
         }
     }
 }
+
+/// The same source exposed directly through the library's `ReadNoStd` (no std `read_exact` loop
+/// in between): retryable steps are retried here, a terminal step is a `ReadError`.
+pub struct NoStdSource<'a>(pub SimReader<'a>);
+impl epserde::deser::ReadNoStd for NoStdSource<'_> {
+    fn read_exact(&mut self, mut buf: &mut [u8]) -> epserde::deser::Result<()> {
+        use std::io::Read;
+        while !buf.is_empty() {
+            match self.0.read(buf) {
+                Ok(0) => return Err(epserde::deser::Error::ReadError),
+                Ok(n) => buf = &mut buf[n..],
+                Err(e) if e.kind() == io::ErrorKind::Interrupted => {}
+                Err(_) => return Err(epserde::deser::Error::ReadError),
+            }
+        }
+        Ok(())
+    }
+}
